@@ -67,7 +67,7 @@ def parents_not_deleted(ctx, chk, rule, modules, children, key_prefix, why):
             if td is None:
                 continue
             for cols, rt, rcols in td.fks:
-                if rt not in out and rt not in tabs:
+                if rt not in out:
                     out.add(rt)
                     stack.append(rt)
         return out
